@@ -74,7 +74,9 @@ macro_rules! impl_parse {
                 loop {
                     let key: syn::Ident = $input.call(syn::ext::IdentExt::parse_any)?;
                     match &*key.to_string() {
-                        $($k => $e,)*
+                        // serde's `key(serialize = .., deserialize = ..)` form is not supported:
+                        // it is skipped like an unknown key instead of failing the whole list
+                        $($k if !$input.peek(syn::token::Paren) => $e,)*
                         #[allow(unreachable_patterns)]
                         x => {
                             if cfg!(not(feature = "no-serde-warnings")) {
